@@ -36,7 +36,7 @@ ASSUMPTIONS = [
 MANIFEST = {
     "level": LEVEL,
     "technique": "deterministic simulation: seeded check/compile histories with failing definitions injected, each op compared with a fresh-session reference computed in a sibling fork",
-    "text": "Seeded exploration of session histories over generated definition pools; after every op the canonical HUGR / rendered diagnostic / escaping exception must equal what a fresh session (sibling process forked before any check or compile) produces for that op alone. Failing definitions (20 mistake kinds incl. comptime bodies that raise) are the injected faults; a final round re-compiles every definition once faults stop. Sampling, not proof.",
+    "text": "Seeded exploration of session histories (10-320 ops quick, up to 700 thorough, with immediate repeats and failing definitions injected from 25 mistake kinds incl. comptime bodies that raise and nested recursive functions whose own body fails) over generated definition pools of 1-3 modules sharing names. After every op the canonical HUGR / rendered diagnostic / escaping exception must equal the reference: a fresh session (sibling process forked before any check or compile) for the 6-10 (definition, op) pairs first used latest in the history, the first occurrence in the history for the others. A final round re-compiles definitions once faults stop. Sampling, not proof.",
     "note": "Trusted: fork() as the fresh-session reference, the canonicaliser (renumbering of generated names only), the program generator as workload, the compat shim.",
     "design_ref": "DESIGN.md section 3 (C11)",
 }
